@@ -15,6 +15,38 @@ func ZZC03Lexer() {
 	for k := range in {
 		in[k] = zzRune("r")
 	}
+	zzCheckLex(in)
+	zzWitness("end")
+}
+
+// zzLexAlphabet: one representative of every character class the lexer
+// distinguishes (quote, backslash, newline, letters incl. non-ASCII, digit,
+// dot, blank, tab, carriage return, slash, operators that pair up, brackets).
+var zzLexAlphabet = []rune{'"', '\\', '\n', 'a', ' ', '1', '/', '.', ':', '=', 'é', '\t', '\r', '-', '!', '<', '(', '#'}
+
+// ZZC03LexSeq: every sequence of up to M characters of the class alphabet
+// (longer inputs than the fully symbolic ZZC03Lexer reaches: strings with
+// escapes that span lines, comments, multi-character operators, numbers).
+func ZZC03LexSeq() {
+	M := zzParam("M", 4)
+	A := zzParam("A", len(zzLexAlphabet))
+	if A > len(zzLexAlphabet) {
+		A = len(zzLexAlphabet)
+	}
+	n := 1 + zzChoice("n", M)
+	in := make([]rune, n)
+	for k := range in {
+		in[k] = zzLexAlphabet[zzChoice("c", A)]
+	}
+	if !zzSymbolic() {
+		zzLog("input: " + string(in))
+	}
+	zzCheckLex(in)
+	zzWitness("end")
+}
+
+func zzCheckLex(in []rune) {
+	n := len(in)
 	l := &Lexer{input: in, pos: -1, line: 1}
 	prevEnd := 0
 	ntok := 0
@@ -59,7 +91,6 @@ func ZZC03Lexer() {
 			zzReach("string")
 		}
 	}
-	zzWitness("end")
 }
 
 // ZZC13IsIdent: IsIdent(s) holds exactly for identifiers of the grammar:
